@@ -45,6 +45,7 @@ class PrecWorld(World):
         vids = ("v0", "v1", "v2", "h0")
         self.controller_menu = [(g, k[0], vid) + tuple(k[1:]) for g in ("I", "J") for vid in vids for k in per_vehicle]
         self.keep_tod = True
+        self._t0 = int(self.starts["init"].sim_time)
 
     @staticmethod
     def slot(ev):
@@ -72,10 +73,27 @@ class PrecWorld(World):
         from nrel.hive.state.simulation_state.update.step_simulation import StepSimulation
 
         sim = self.pre_step(sim, events)
-        g1 = Scripted(tuple(mk_instruction(("I",) + e[1:]) for e in events if e[0] == "I"))
-        g2 = Scripted2(tuple(mk_instruction(("I",) + e[1:]) for e in events if e[0] == "J"))
-        sim, _ = StepSimulation.from_tuple((g1, g2)).update(sim, self.env)
+        g1 = TripPlanner(tuple(mk_instruction(("I",) + e[1:]) for e in events if e[0] == "I"))
+        g2 = ChargePlanner(tuple(mk_instruction(("I",) + e[1:]) for e in events if e[0] == "J"))
+        if int(sim.sim_time) == self._t0:
+            ctrl = StepSimulation.from_tuple((g1, g2))  # first step of a run: the controller as configured
+        else:
+            # later steps: the controller a runner carries forward -- what StepSimulation.update hands back at the end of
+            # every step (update_instruction_generators over the generators in their order) -- with this step's scripts
+            # put in through the public single-generator update
+            ctrl = StepSimulation.from_tuple((TripPlanner(), ChargePlanner()))
+            ctrl = ctrl.update_instruction_generators(ctrl.ordered_instruction_generators)
+            ctrl = ctrl.update_instruction_generator(g1).unwrap().update_instruction_generator(g2).unwrap()
+        sim, _ = ctrl.update(sim, self.env)
         return sim
+
+
+class TripPlanner(Scripted):
+    """G1, configured FIRST; its name sorts after G2's, so configured order and name order disagree"""
+
+
+class ChargePlanner(Scripted):
+    """G2, configured LAST: it has precedence over G1"""
 
 
 def make(**kw):
